@@ -50,7 +50,9 @@ Definition expected_facts : list string :=
    "changesAfter.only-feeds-always-receiving-stage"; "DropExcess.returns-on-every-closed-receive";
    "mergeCollectionExcess.returns-on-every-closed-receive";
    "Update.send-after-GetAndUpdate-returned"; "Value.set.send-after-GetAndUpdate-returned";
-   "Delete.one-Lock-released-on-retry-and-after-send"]%string.
+   "Delete.one-Lock-released-on-retry-and-after-send";
+   (* Res.v RReturn / ResProofs.turnstile_pairing: every way out of a call that entered the turnstile leaves it *)
+   "Value.set.turnstile-left-on-every-path"; "Update.turnstile-left-on-every-path"; "Delete.turnstile-left-on-every-path"]%string.
 
 Definition shape_agrees (rows : list gshape) (facts : list (string * bool)) : bool :=
   list_eqb String.eqb (map g_name rows) expected_goroutines
